@@ -68,6 +68,75 @@ type vReport struct {
 	Config   string
 }
 
+// c12StrictReport decodes a STORED object: it must be exactly one JSON value
+// (nothing but blanks after it), an object with report fields only (no unknown
+// field anywhere), no key twice in any object.
+func c12StrictReport(data []byte) (vReport, error) {
+	var r vReport
+	dec := json.NewDecoder(bytes.NewReader(data))
+	dec.DisallowUnknownFields()
+	if err := dec.Decode(&r); err != nil {
+		return r, err
+	}
+	var rest json.RawMessage
+	if err := dec.Decode(&rest); err != io.EOF {
+		return r, fmt.Errorf("more than one JSON value in the stored object")
+	}
+	// duplicate keys: walk the tokens
+	td := json.NewDecoder(bytes.NewReader(data))
+	type frame struct {
+		obj  bool
+		keys map[string]bool
+		key  bool // next token is a key
+	}
+	var st []*frame
+	for {
+		tok, err := td.Token()
+		if err == io.EOF {
+			break
+		}
+		if err != nil {
+			return r, err
+		}
+		top := func() *frame {
+			if len(st) == 0 {
+				return nil
+			}
+			return st[len(st)-1]
+		}
+		if d, ok := tok.(json.Delim); ok {
+			switch d {
+			case '{':
+				if t := top(); t != nil && t.obj {
+					t.key = true
+				}
+				st = append(st, &frame{obj: true, keys: map[string]bool{}, key: true})
+			case '[':
+				if t := top(); t != nil && t.obj {
+					t.key = true
+				}
+				st = append(st, &frame{})
+			case '}', ']':
+				st = st[:len(st)-1]
+			}
+			continue
+		}
+		if t := top(); t != nil && t.obj {
+			if t.key {
+				k, _ := tok.(string)
+				if t.keys[k] {
+					return r, fmt.Errorf("key %q twice in the stored object", k)
+				}
+				t.keys[k] = true
+				t.key = false
+			} else {
+				t.key = true
+			}
+		}
+	}
+	return r, nil
+}
+
 func vNormalize(r *vReport) {
 	if len(r.Programs) == 0 {
 		r.Programs = nil
@@ -310,15 +379,10 @@ func TestVerifC12(t *testing.T) {
 					continue
 				}
 				s := rt.M{"path": p, "size": len(after[p])}
-				var got vReport
-				dec := json.NewDecoder(bytes.NewReader(after[p]))
-				if err := dec.Decode(&got); err != nil {
-					s["decode_err"] = err.Error()
+				got, serr := c12StrictReport(after[p])
+				if serr != nil {
+					s["decode_err"] = serr.Error()
 				} else {
-					var rest json.RawMessage
-					if err := dec.Decode(&rest); err != io.EOF {
-						s["decode_err"] = "more than one JSON value in the stored object"
-					}
 					s["week"] = got.Week
 					s["x"] = got.X
 					var want vReport
@@ -358,13 +422,8 @@ func TestVerifC12(t *testing.T) {
 			if err := json.NewDecoder(bytes.NewReader(body)).Decode(&want); err == nil {
 				vNormalize(&want)
 				for _, p := range listing {
-					var got vReport
-					dec := json.NewDecoder(bytes.NewReader(after[p]))
-					if err := dec.Decode(&got); err != nil {
-						continue
-					}
-					var rest json.RawMessage
-					if err := dec.Decode(&rest); err != io.EOF {
+					got, serr := c12StrictReport(after[p])
+					if serr != nil {
 						continue
 					}
 					vNormalize(&got)
